@@ -101,7 +101,7 @@ def get_path(ctx, progs, maxsteps):
 
 def random_history(rnd, p, length):
     hist = []
-    bps = p.avail + [hx(b'm') + ':%d' % rnd.randint(0, 30), hx(b'zz') + ':1']
+    bps = p.avail + p.avail + [hx(b'm') + ':%d' % rnd.randint(0, 30), hx(b'zz') + ':1']
     for _ in range(length):
         k = rnd.random()
         if k < 0.3:
@@ -221,7 +221,23 @@ def vm_correspondence(ctx, cases, hists, a, b):
 
 def debugger_suite(ctx, n_random, hist_len, exhaustive_len, big=False):
     """builds programs + histories, runs them, returns tuples for the per-property oracles"""
-    cases = compile_sources(ctx, n_random, big=big)
+    cases = compile_sources(ctx, n_random - n_random // 3, big=big)
+    # non-canonical layouts: several statements per line, headers sharing a line with other code, pieces in included files
+    from checks import front as _front
+    for (m, f, meta) in _front.program_files(ctx, n_random // 3, mutate_frac=0.0, multi_frac=0.6, big=big):
+        o = impl(ctx, ['GEN ' + files_req(m, f)])[0]
+        if not is_crash(o) and fields(o).get('ok') == '1':
+            cases.append({'defs': meta['defs'], 'main': meta['main'], 'files': f, 'mainf': m, 'text': meta['text'], 'prog': Prog(fields(o))})
+    # headers that continue a line after an include (a line is left for another file and re-entered)
+    for _ in range(max(10, n_random // 4)):
+        g = sources.Gen(ctx.rnd, big=big)
+        defs, main = g.program()
+        if not defs:
+            continue
+        fl = {k.encode(): v.encode() for k, v in sources.header_after_include(defs, main, ctx.rnd).items()}
+        o = impl(ctx, ['GEN ' + files_req(b'm', fl)])[0]
+        if not is_crash(o) and fields(o).get('ok') == '1':
+            cases.append({'defs': defs, 'main': main, 'files': fl, 'mainf': b'm', 'text': {k.decode(): v.decode() for k, v in fl.items()}, 'prog': Prog(fields(o))})
     fixed = []
     for src in fixed_programs():
         fixed.append({'defs': None, 'main': None, 'files': {b'm': src.encode()}, 'mainf': b'm', 'text': src})
@@ -253,6 +269,10 @@ def debugger_suite(ctx, n_random, hist_len, exhaustive_len, big=False):
     for c in keep:
         for _ in range(2 if c['defs'] is not None else 4):
             jobs.append((c, random_history(ctx.rnd, c['prog'], ctx.rnd.randint(5, hist_len))))
+    # every available line enabled at once, then run: a stale or misplaced site shows up as a changed computation
+    for c in keep:
+        if c['defs'] is not None and len(c.get('files', {})) > 1:
+            jobs.append((c, ['b:' + bp for bp in c['prog'].avail] + ['e'] * 12 + ['c', 'e']))
     ctx.cov['exhaustive_histories'] = nex
     return jobs
 
@@ -324,7 +344,7 @@ def check_history_oracles(ctx, jobs, a, which):
                     ctx.violation('history-after-reset-differs', 'after call %d (%s) the machine differs from the fresh-machine run of the suffix' % (i, op),
                                   {'source': c['text'], 'history': h[:i + 1]})
                     break
-        key = c['text'] + '|' + ','.join(h)
+        key = str(c['text']) + '|' + ','.join(h)
         if 'C17' in which:
             if 'r' in h[:-1]:
                 ctx.nontrivial(key)
